@@ -154,7 +154,8 @@ def extOf (t : Tables) : Ext Nat Nat Nat :=
     evaluated on this case's tables: every class a loader raised is an `Exception` subclass, every
     failing read an OSError or a UnicodeError -/
 def isTextReadErrB (X : Ext Nat Nat Nat) (c : String) : Bool :=
-  (X.mro c).contains "Exception" && ((X.mro c).contains "OSError" || (X.mro c).contains "UnicodeError")
+  (X.mro c).contains "Exception" && (X.mro c).contains "BaseException" &&
+  ((X.mro c).contains "OSError" || ((X.mro c).contains "UnicodeError" && (X.mro c).contains "ValueError"))
 
 def extFactsOk (t : Tables) (X : Ext Nat Nat Nat) (w : World) : Bool :=
   t.load.all (fun r => match r.2.2 with
